@@ -101,7 +101,7 @@ func genBuildScenario(r *rand.Rand) *BuildScenario {
 	return b
 }
 
-func outputFromBlock(ctx context.Context, cfg Config, ob *hchain.OutputBlock) (Output, error) {
+func outputFromBlock(ctx context.Context, s *Scenario, cfg Config, ob *hchain.OutputBlock) (Output, error) {
 	out := Output{Config: cfg}
 	for _, rr := range ob.ExecutionResults.Results {
 		ro := ResultOut{Success: rr.Success, ErrCls: classifyResultErr(rr.Error), Fee: rr.Fee, Units: [5]uint64(rr.Units), Outputs: rr.Outputs}
@@ -112,7 +112,7 @@ func outputFromBlock(ctx context.Context, cfg Config, ob *hchain.OutputBlock) (O
 	}
 	out.Prices = [5]uint64(ob.ExecutionResults.UnitPrices)
 	out.Consumed = [5]uint64(ob.ExecutionResults.UnitsConsumed)
-	for _, k := range universeKeys() {
+	for _, k := range s.universeKeys() {
 		v, err := ob.View.GetValue(ctx, k)
 		switch {
 		case errors.Is(err, database.ErrNotFound):
@@ -269,7 +269,7 @@ func runBuild(b *BuildScenario) (emit.Case, error) {
 			inclTxs = append(inclTxs, s.Txs[i])
 		}
 	}
-	builderOut, err := outputFromBlock(ctx, Config{Cores: b.Cores, Fetch: 0, Workers: 0}, ob)
+	builderOut, err := outputFromBlock(ctx, s, Config{Cores: b.Cores, Fetch: 0, Workers: 0}, ob)
 	if err != nil {
 		return emit.Case{}, err
 	}
@@ -308,7 +308,7 @@ func runBuild(b *BuildScenario) (emit.Case, error) {
 			outs = append(outs, o)
 			continue
 		}
-		vo, err := outputFromBlock(ctx, cfg, vob)
+		vo, err := outputFromBlock(ctx, s, cfg, vob)
 		if err != nil {
 			return emit.Case{}, err
 		}
